@@ -341,7 +341,8 @@ fn interleave_case(rep: &mut Report, seed: u64, idx: u64, exhaustive_small: bool
     let desc = json!({"index": idx, "kind": "interleaving", "streams": streams.iter().map(|s| json!({"channel": s.channel, "command": COMMANDS[s.cmd_idx].1, "payload_len": s.payload.len(), "packets": s.packets.len()})).collect::<Vec<_>>()});
     if exhaustive_small && total <= 10 {
         let mut out = Vec::new();
-        all_merges(&counts, &mut Vec::new(), &mut counts.clone(), &mut out, 30_000);
+        // under the interpreter a merge costs seconds: a bounded prefix of the enumeration is enough there
+        all_merges(&counts, &mut Vec::new(), &mut counts.clone(), &mut out, if cfg!(miri) { 60 } else { 30_000 });
         rep.count("exhaustive_merge_sets");
         for (k, order) in out.iter().enumerate() {
             let mut case = desc.clone();
